@@ -19,7 +19,7 @@ name = "replay"
 path = "src/replay.rs"
 
 [dependencies]
-educe = { path = "%s" }
+educe = { path = "%s", features = ["full"] }
 
 [lints.rust]
 unexpected_cfgs = { level = "allow", check-cfg = ['cfg(kani)'] }
